@@ -237,7 +237,7 @@ impl<'p> IpPayload<'p> {
             #[cfg(feature = "proto-ipv6")]
             Self::Icmpv6(_) => SixlowpanNextHeader::Uncompressed(IpProtocol::Icmpv6),
             #[cfg(feature = "proto-ipv6")]
-            Self::HopByHopIcmpv6(_, _) => unreachable!(),
+            Self::HopByHopIcmpv6(_, _) => SixlowpanNextHeader::Uncompressed(IpProtocol::HopByHop),
             #[cfg(all(feature = "proto-ipv4", feature = "multicast"))]
             Self::Igmp(_) => unreachable!(),
             #[cfg(feature = "socket-tcp")]
